@@ -59,8 +59,11 @@ enum Rel {
     ArgRequiredElseHelp,
     IgnoreErrors,
     GlobalSub,
+    /// `z.required_if_eq_any(o = D | DI | DM)` with `o.ignore_case(true)`: the upper-case spellings
+    /// of every default `o` can have — a default must not make `z` required
+    ZRequiredIfOEqualsDefaultIgnoringCase,
 }
-const RELS: [Rel; 13] = [
+const RELS: [Rel; 14] = [
     Rel::None,
     Rel::OConflictsOther,
     Rel::OtherConflictsO,
@@ -74,6 +77,7 @@ const RELS: [Rel; 13] = [
     Rel::ArgRequiredElseHelp,
     Rel::IgnoreErrors,
     Rel::GlobalSub,
+    Rel::ZRequiredIfOEqualsDefaultIgnoringCase,
 ];
 
 #[derive(Clone, Debug)]
@@ -108,6 +112,9 @@ impl Cfg {
         }
         if matches!(self.kind, Kind::Flag | Kind::Count) && (self.default || self.dif != DIf::None) {
             return false; // explicit defaults on flags are the documentation's own special case
+        }
+        if self.rel == Rel::ZRequiredIfOEqualsDefaultIgnoringCase && matches!(self.kind, Kind::Flag | Kind::Count) {
+            return false;
         }
         true
     }
@@ -170,6 +177,10 @@ impl Cfg {
                 let mut s = CmdSpec::new("sub");
                 s.args.push(ArgSpec::flag("x", None, Some("x")));
                 c.subs.push(s);
+            }
+            Rel::ZRequiredIfOEqualsDefaultIgnoringCase => {
+                o.ignore_case = true;
+                z.required_if_eq_any = vec![("o".into(), "D".into()), ("o".into(), "DI".into()), ("o".into(), "DM".into())];
             }
             Rel::None => {}
         }
@@ -414,6 +425,9 @@ fn judge(c: &Cfg, spec: &CmdSpec, cmd: &clap::Command, seq: &[Tok], h: &mut Hist
                     if only_default && e.kind == "ArgumentConflict" && seq.iter().filter(|t| matches!(t, Tok::OtherX | Tok::OtherY)).count() <= 1 =>
                 {
                     bad.push(("a default value triggered a conflict".into(), format!("{} (o default-only: {})", e.rendered.lines().next().unwrap_or(""), has_default_origin)));
+                }
+                Rel::ZRequiredIfOEqualsDefaultIgnoringCase if only_default && e.kind == "MissingRequiredArgument" => {
+                    bad.push(("a default value triggered a conditional requirement (required_if_eq with ignore_case)".into(), e.rendered.lines().next().unwrap_or("").to_string()));
                 }
                 Rel::ORequiresZ if only_default && e.kind == "MissingRequiredArgument" => {
                     bad.push(("a default value triggered a requirement".into(), e.rendered.lines().next().unwrap_or("").to_string()));
